@@ -22,5 +22,42 @@ META = {
   "design_ref": "DESIGN.md 6 C15",
   "technique": "TLA+ calendar spec (KCalendar) model-checked per year with TLC + replay into klog.Date/period.* + TLC trace validation of the recorded tables",
  },
+ "C01": {
+  "text": "TLC enumerates documents from the generator KGrammar (abstract records x layouts, plus every rule-violating mutant of base "
+          "documents) and checks generator against the independent recogniser KParse on each (accept + denoted data, or reject + first "
+          "bad line); every document is replayed into the real parser and TLC judges acceptance, rejection and the exact data of each "
+          "observation. Bounded by the value/summary/layout pools (quick ~17k documents).",
+  "design_ref": "DESIGN.md 6 C01",
+  "technique": "TLA+ grammar + recogniser (KGrammar, KParse) cross-checked by TLC; generated documents replayed into parser.Parse; TLC trace validation",
+ },
+ "C06": {
+  "text": "TLC enumerates the token language (all sequences up to the tier's length over 24 klog fragments incl. invalid-UTF-8 symbols, "
+          "NUL, lone CR, huge numbers) and evaluates the total recogniser on each; every text is replayed into serial and parallel "
+          "parser, read-only commands and error renderings; TLC judges return shape and absence of panics. Crashes of the driver are "
+          "attributed to the case and confirmed by an isolated re-run.",
+  "design_ref": "DESIGN.md 6 C06",
+  "technique": "TLC enumeration of a token language from the TLA+ spec, replay into parser + CLI, TLC trace validation of shape/no-panic",
+ },
+ "C08": {
+  "text": "Spec-level: TLC checks on every generated document that lines and blocks of KParse reproduce the text. Binding: the blocks "
+          "returned by the real parser are compared by TLC with the specification's segmentation (text, ending, global line index) "
+          "and a no-op reconcile must return the identical text.",
+  "design_ref": "DESIGN.md 6 C08",
+  "technique": "TLA+ block model (KText/KParse) + TLC-generated documents replayed into parser and no-op reconciler + TLC trace validation",
+ },
+ "C09": {
+  "text": "Spec-level: TLC checks that the canonical serialisation KPrint of every generated document parses back to the same data and "
+          "is a fixed point. Binding: `klog print --no-style` through the real CLI on every document; TLC judges re-parse equality "
+          "(incl. notation), fixed point, canonical layout and equality with KPrint.",
+  "design_ref": "DESIGN.md 6 C09",
+  "technique": "TLA+ canonical printer (KPrint) + TLC-generated documents replayed through `klog print` twice + TLC trace validation",
+ },
+ "C10": {
+  "text": "TLC generates every single-fault mutant of base documents (each fault kind at each line) with the line at which the text stops "
+          "conforming (generator) and cross-checks it with the recogniser; the real parser's errors (line, text, position, length, order, "
+          "first line) and their terminal and JSON renderings are judged by TLC for every mutant.",
+  "design_ref": "DESIGN.md 6 C10",
+  "technique": "TLA+ mutation generator + recogniser first-bad-line oracle, replay into parser / `klog print` / `klog json`, TLC trace validation",
+ },
 }
-HOOK_COMMITS = []
+HOOK_COMMITS = ["022feb6", "3577f1d", "054219c"]
